@@ -198,6 +198,10 @@ pub fn replay_full(rf: &RunFile) -> (Option<engine::Violation>, Option<Vec<u16>>
         let (_, v) = crate::stub::element_type_build_cases();
         return (v.map(|(label, detail)| engine::Violation { property: "C18".into(), kind: "build-invariant".into(), detail: format!("{label}: {detail}"), thread: 0, op: 0, step: 0 }), None);
     }
+    if rf.variant == "cases:degenerate-histories" {
+        let (_, _, v) = crate::degen::degenerate_history_cases();
+        return (v.map(|detail| engine::Violation { property: "C17".into(), kind: "result-mismatch".into(), detail, thread: 0, op: 0, step: 0 }), None);
+    }
     if rf.variant == "cases:degenerate-strides" {
         let (_, v) = crate::degen::degenerate_stride_cases();
         return (v.map(|detail| engine::Violation { property: "C18".into(), kind: "callback-invariant".into(), detail, thread: 0, op: 0, step: 0 }), None);
